@@ -118,6 +118,8 @@ def new_scenario():
 
 
 STARTS = {"empty": [], "NA-loaded": [["addnet", "NA"]],
+          # lanelet L2 references sign id 10 and light id 11, which here belong to obstacles (dangling references onto other kinds)
+          "dangling-refs": [["add", "L1"], ["add", "L2"], ["add", "D"], ["add", "P"], ["add", "O1"]],
           "all-loaded": [["add", "L1"], ["add", "L2"], ["add", "S"], ["add", "T"], ["add", "I"], ["add", "O1"], ["add", "O2"],
                          ["add", "O3"], ["add", "O4"]]}
 
